@@ -15,6 +15,7 @@ Arguments tl_try : simpl never.
 Arguments tl_rel_raises : simpl never.
 Arguments normalise : simpl never.
 Arguments faulty : simpl never.
+Arguments intr : simpl never.
 Arguments enabled : simpl never.
 Arguments step : simpl never.
 Arguments run_alone : simpl never.
